@@ -57,6 +57,34 @@ func Minimise(t *testing.T, eng *Engine, plan *Plan, tape []core.TapeEntry, prop
 	}
 	best, bestTape := plan, tape
 	var bestRes *RunResult
+	// 0. cut off everything the clients had not even started when the violation
+	// was observed (cannot change what happened before it); OpYield and other
+	// pseudo operations log nothing, so keep a margin of the next few operations
+	{
+		dec := core.NewReplayDecider(plan.Seed, tape, false)
+		res := runOne(t, plan, dec, eng)
+		if v := hasViolation(res, prop, rule); v != nil && v.Seq != 0 {
+			pre := eng.PrefixAt(v.Seq)
+			cand := clonePlan(plan)
+			cut := false
+			for ci := range cand.Clients {
+				keep := pre[ci]
+				// pseudo operations following the last logged one
+				for keep < len(cand.Clients[ci]) && (cand.Clients[ci][keep].K == OpYield) {
+					keep++
+				}
+				if keep < len(cand.Clients[ci]) {
+					cand.Clients[ci] = cand.Clients[ci][:keep]
+					cut = true
+				}
+			}
+			if cut {
+				if r2, ok := try(cand, res.Tape); ok {
+					best, bestTape, bestRes = cand, r2.Tape, r2
+				}
+			}
+		}
+	}
 	improved := true
 	for improved && time.Now().Before(deadline) {
 		improved = false
